@@ -20,11 +20,11 @@ import (
 // ---- C05: cursors ----
 
 type c05Shape struct {
-	Name string
-	Keys []string // plain keys, ascending
-	Val  string   // value class
-	Subs []string // nested bucket entries (names)
-	Levels int   // levels the B+tree of the shape must have (0 = not asserted); guards against a vacuous shape
+	Name   string
+	Keys   []string // plain keys, ascending
+	Val    string   // value class
+	Subs   []string // nested bucket entries (names)
+	Levels int      // levels the B+tree of the shape must have (0 = not asserted); guards against a vacuous shape
 }
 
 func c05Shapes(ps int) []c05Shape {
